@@ -129,6 +129,11 @@ def check(case, exclude=True):
     # ---- (3) determinism
     base = result_sig(o)
     try:
+        # another scheduler object with other calendars for the same resource names comes to life in between:
+        # it must not influence the first one
+        from pjplan import Resource, WeeklyCalendar
+        sched.make_scheduler(case, [Resource(n, WeeklyCalendar(days=[2, 6], units_per_day=5)) for n in specs.RES_NAMES])
+        sched.make_scheduler(case, None)
         r2 = o.sched.calc(w)
         o2 = sched.Out(); o2.case = case; o2.m = o.m; o2.result = r2
         sched.extract(o2)
